@@ -84,7 +84,7 @@ OPS: Dict[str, Any] = {
     "rename_genes": _d("rename_genes", pairs=st.lists(st.tuples(_k, st.integers(0, N_GID - 1)), min_size=1, max_size=3, unique_by=lambda t: t[0])),
     "rename_rxn": _d("rename_rxn", rxn=_k, new=_rid_new),
     "rename_met": _d("rename_met", met=_k, new=_mid_new),
-    "objective": _d("objective", kind=st.sampled_from(["rxn", "id", "index", "dict", "list", "coef", "coef", "obj_same_min", "obj_same_max", "obj_new_min", "obj_new_max"]), rxns=st.lists(_k, min_size=1, max_size=3),
+    "objective": _d("objective", kind=st.sampled_from(["rxn", "id", "index", "dict", "list", "coef", "coef", "obj_same_min", "obj_same_max", "obj_new_min", "obj_new_max", "expr"]), rxns=st.lists(_k, min_size=1, max_size=3),
                     coefs=st.lists(st.sampled_from([1, 1, -1, 2, 0.5, 0]), min_size=3, max_size=3)),
     "direction": _d("direction", value=st.sampled_from(["max", "min", "min", "maximize", "MIN", "bogus"])),
     "imul": _d("imul", rxn=_k, factor=st.sampled_from([2, 0.5, -1, -2, 3, 1.5])),
@@ -505,6 +505,12 @@ class World:
             m.objective = [r.id if i % 2 else r for i, r in enumerate(rx)]
         elif kind == "dict":
             m.objective = {r: c for r, c in zip(rx, op["coefs"])}
+        elif kind == "expr":
+            # a bare symbolic expression: "directly interpreted as objective", the direction stays as it is
+            terms = [(r, c) for r, c in zip(rx, op["coefs"]) if c != 0]
+            if not terms:
+                return "skipped:zero-expression"
+            m.objective = sum(c * r.flux_expression for r, c in terms)
         elif kind.startswith("obj_"):
             # an optlang Objective carries its own direction; "same": the current expression with a (possibly) other direction
             if kind.startswith("obj_same"):
